@@ -236,8 +236,10 @@ class ResultEdges:
 
     def reachable_from_err(self):
         out = set()
+        # a new execution of the call produces a new result: do not run through the call block again
+        blocked = [(p, self.call_block) for p in self.body.pred(self.call_block)]
         for (_a, s) in self.err:
-            out |= refined_reach(self.body, [s])
+            out |= refined_reach(self.body, [s], blocked_edges=blocked)
         return out
 
 
